@@ -1,7 +1,7 @@
 """C20 - command line beats config file beats default; legacy aliases are honoured."""
 import os
 
-from vlib import core, prog
+from vlib import core, prog, physics
 
 ASSUME = [
     "the same option given under both its legacy and its current name in one source is unspecified and not generated",
@@ -37,6 +37,9 @@ def process_part(ctx):
     cases.append(("malformed_cfg", [], "StepsPerTs=-x", True))
     cases.append(("missing_cfg", ["--config", "does_not_exist.cfg"], None, False))
     cases.append(("missing_cfg", ["--config", "dir/also/missing.cfg"], None, False))
+    cases.append(("missing_cfg", ["--config", "sub/default.cfg"], None, False))      # (only the implicit ./default.cfg may be absent silently)
+    cases.append(("missing_cfg", ["--config", "./default.cfg"], None, False))
+    cases.append(("missing_cfg", ["--config", "/nonexistent/dir/default.cfg"], None, False))
     cases.append(("garbage_cfg", [], "\x00\x01\x02 not a config [[[\n=\n", True))
     cases.append(("section_cfg", [], "[section\nGridSize=32\n", True))
 
@@ -77,6 +80,56 @@ def process_part(ctx):
             ctx.violation("C20:process:%s:success_status" % kind, "unknown option / malformed value ends with a success status", w)
 
 
+def effective_part(ctx):
+    """The value that takes effect inside the program (not only in the getters): the step size implied by StepsPerTs / StepsPerRevolution given on
+    the command line, in the config file, or in both, as the program reports it in its log."""
+    import re
+    sdir = os.path.join(ctx.scratch(), "eff")
+    os.makedirs(sdir, exist_ok=True)
+    n = 24 if ctx.tier == "thorough" else 8
+
+    def one(i):
+        r = core.Rng("c20eff", ctx.seed, i)
+        d = os.path.join(sdir, "e%02d" % i)
+        os.makedirs(d, exist_ok=True)
+        per_rev = (i % 2 == 0)
+        name = "StepsPerRevolution" if per_rev else "StepsPerTs"
+        def val():
+            return round(r.uniform(0.2, 3.0), 4) if per_rev else r.randint(30, 900)
+        where = ["cli", "cfg", "both", "cfg_alias" if not per_rev else "both"][i % 4]
+        vcli, vcfg = val(), val()
+        opts = dict(GridSize=32, rotations=0.02, output="o.h5", verbose=True)
+        cfgtext = ""
+        if where in ("cli", "both"):
+            opts[name] = vcli
+        if where in ("cfg", "both"):
+            cfgtext = "%s=%s\n" % (name, vcfg)
+        if where == "cfg_alias":
+            cfgtext = "steps=%s\n" % vcfg
+        with open(os.path.join(d, "in.cfg"), "w") as fh:
+            fh.write(cfgtext)
+        eff = vcli if where in ("cli", "both") else vcfg
+        res = prog.run_inovesa("rel", opts, d, os.path.join(sdir, "xdg%d" % (i % 4)), timeout=120, config="in.cfg")
+        P = physics.derive({name: eff})
+        m = re.search(r"Doing ([0-9.eE+-]+) simulation steps per (synchrotron|revolution) period", res["out"])
+        return dict(i=i, name=name, where=where, cli=vcli, cfg=vcfg, effective=eff, res=res, m=m, P=P, cfgtext=cfgtext)
+
+    for o in core.pmap(one, list(range(n))):
+        res = o["res"]
+        w = dict(option=o["name"], placed=o["where"], command_line_value=o["cli"], config_value=o["cfg"], config=o["cfgtext"], cmd=" ".join(res["argv"]))
+        if res["rc"] != 0 or not o["m"]:
+            ctx.inconcl("effective-value run %d failed or did not report its step size: %s" % (o["i"], res["err"][-200:]))
+            continue
+        ctx.case("eff:%s:%s:%s:%s" % (o["name"], o["where"], o["cli"], o["cfg"]))
+        ctx.ev("effective_values_checked_in_program_runs")
+        got, unit = float(o["m"].group(1)), o["m"].group(2)
+        P = o["P"]
+        want = P["steps"] if unit == "synchrotron" else P["steps"] * P["fs"] / P["frev"]      # steps per synchrotron period / per revolution
+        if not ctx.residual("prog.effective_step_size_err_over_tol", abs(got - want) / (2e-6 * abs(want) + 1e-6), 1.0):      # (printed with six decimals)
+            ctx.violation("C20:effective:" + o["name"] + ":" + o["where"], "the step size the program reports is not the one implied by the option value with the highest precedence",
+                          dict(w, reported=got, unit=unit, expected=want))
+
+
 def run(ctx):
     ctx.assumptions = ASSUME
     ctx.rule = ("API: every option independently placed on the command line / in the config file / in both (different values) / nowhere, with random legal values (incl. values needing 9/17 digits, 1-5 bunch currents), "
@@ -85,4 +138,5 @@ def run(ctx):
     core.run_harness(ctx, "c20", 200000 if th else 4000, args=["--mode", "c20"])
     core.run_harness(ctx, "c20", 4000 if th else 320, variant="asan", args=["--mode", "c20"])
     process_part(ctx)
-    ctx.min_events = {"parses": 2000, "option_values_checked": 100000, "cli_vs_config_conflicts_checked": 3000, "alias_uses_checked": 500, "process_runs": 30}
+    effective_part(ctx)
+    ctx.min_events = {"parses": 2000, "option_values_checked": 100000, "cli_vs_config_conflicts_checked": 3000, "alias_uses_checked": 500, "process_runs": 30, "effective_values_checked_in_program_runs": 4}
